@@ -144,6 +144,7 @@ fn cli_programs() -> Vec<CliProg> {
         CliProg { name: "INPUT after an unfinished output line", text: "10 PRINT \"NAME\";\n20 INPUT N$\n30 PRINT \"HI \";N$;\n40 INPUT M: PRINT M + G\n", replies: "BOB\nx\n7\n", analysis_error: false },
         CliProg { name: "INPUT in a loop with surplus items", text: "10 FOR I = 1 TO 2: PRINT I;: INPUT V: PRINT V,: NEXT I\n20 PRINT \"done\"\n", replies: "1,2\n3\n", analysis_error: false },
         CliProg { name: "runtime error with replies left over", text: "10 INPUT A\n20 PRINT 1 / (A - 5)\n30 INPUT B\n", replies: "5\nPRINT 99\n10 PRINT 77\nRUN\n", analysis_error: false },
+        CliProg { name: "tabs inside literal text", text: "10 PRINT \"NAME\tQTY\";T\n20 READ A$, B$: PRINT A$;\"|\";B$\n30 REM a\tb\n40 DATA \"x\ty\", p\tq\n", replies: "", analysis_error: false },
         CliProg { name: "long unbroken output", text: "10 FOR I = 1 TO 120: PRINT \"xyz\";: NEXT I\n20 PRINT L\n", replies: "", analysis_error: false },
     ]
 }
